@@ -4,6 +4,7 @@ import (
 	"fmt"
 
 	"github.com/freeconf/yang/fc"
+	"github.com/freeconf/yang/meta"
 	"github.com/freeconf/yang/val"
 	"github.com/freeconf/yang/xpath"
 )
@@ -14,6 +15,10 @@ import (
 type Where struct {
 	Filter      string // XPath filter
 	xpathFilter *xpath.Path
+
+	// the list the filter was given for. A list that the expression itself walks through (or
+	// any other list read through the same selection) is not filtered by it
+	target meta.Meta
 }
 
 func NewWhere(filter string) (*Where, error) {
@@ -26,6 +31,11 @@ func NewWhere(filter string) (*Where, error) {
 
 func (w *Where) CheckListPostConstraints(r ListRequest, child *Selection, key []val.Value) (bool, bool, error) {
 	target := (r.Base != nil && r.Base.Meta == r.Meta)
+	if target && w.target == nil {
+		// the first list read through the filtered selection is the one the filter is for
+		w.target = r.Meta
+	}
+	target = target && w.target == r.Meta
 	if target && child.InsideList {
 		match, err := child.XPredicate(w.xpathFilter)
 		return true, match, err
